@@ -622,6 +622,28 @@ fn generate(a: &Args, name: &str, family: u8) -> i32 {
     let mut distinct = std::collections::BTreeSet::new();
     for i in 0..n {
         let (ty, doc): (Ty, GNode) = match family {
+            1 if i % 5 == 4 => {
+                // merge sources contributing COMPOSITE keys (sequences / mappings as keys) to maps keyed by tuples, structs or
+                // untyped keys: several distinct composite keys per source, own composite keys that collide with merged ones
+                let ck = |rng: &mut Rng| -> GNode { match rng.below(4) {
+                    0 | 1 => GNode::Seq { anchor: None, tag: None, flow: true, items: vec![sc(&rng.below(3).to_string()), sc(&rng.below(2).to_string())] },
+                    2 => GNode::Map { anchor: None, tag: None, flow: true, entries: vec![(sc("x"), sc(&rng.below(3).to_string())), (sc("y"), sc("1"))] },
+                    _ => sc(*rng.pick(&["a", "b"])) } };
+                let src = |rng: &mut Rng, anchor: Option<String>| -> GNode {
+                    let n = 2 + rng.below(3);
+                    GNode::Map { anchor, tag: None, flow: rng.chance(1, 2), entries: (0..n).map(|_| (ck(rng), sc(&rng.below(9).to_string()))).collect() } };
+                let mut top: Vec<(GNode, GNode)> = vec![(sc("base"), src(&mut rng, Some("m0".into())))];
+                let mut t: Vec<(GNode, GNode)> = Vec::new();
+                for _ in 0..rng.below(3) { t.push((ck(&mut rng), sc("own"))); }
+                t.push((sc("<<"), match rng.below(3) { 0 => GNode::Alias("m0".into()), 1 => src(&mut rng, None),
+                    _ => GNode::Seq { anchor: None, tag: None, flow: true, items: vec![GNode::Alias("m0".into()), src(&mut rng, None)] } }));
+                for _ in 0..rng.below(2) { t.push((ck(&mut rng), sc("late"))); }
+                top.push((sc("t"), GNode::Map { anchor: None, tag: None, flow: false, entries: t }));
+                let kt = match rng.below(3) { 0 => Ty::Tuple(vec![Ty::Int(true, 32), Ty::Int(true, 32)]), 1 => Ty::Any,
+                    _ => Ty::Struct(vec![("x", Ty::Int(true, 32)), ("y", Ty::Int(true, 32))], false) };
+                let ty = Ty::Struct(vec![("t", Ty::Map(Box::new(kt), Box::new(Ty::Any)))], false);
+                (ty, GNode::Map { anchor: None, tag: None, flow: false, entries: top })
+            }
             1 => {
                 let ty = match rng.below(3) { 0 => Ty::Any, 1 => Ty::Map(Box::new(Ty::Str), Box::new(Ty::Any)),
                     _ => Ty::Struct(vec![("t", Ty::Struct(vec![("a", Ty::Option(Box::new(Ty::Any))), ("b", Ty::Option(Box::new(Ty::Any))), ("c", Ty::Option(Box::new(Ty::Any))), ("d", Ty::Option(Box::new(Ty::Any)))], false))], false) };
